@@ -26,6 +26,7 @@ type CaseC13 struct {
 	Prolog  []string                 `json:"prolog,omitempty"` // XML kinds: declaration / comment / DOCTYPE before a document
 	Trail   string                   `json:"trail"`
 	Sched   []int                    `json:"sched"` // >0: deliver up to n bytes; 0: (0, nil)
+	Cycle   bool                     `json:"cycle,omitempty"` // the schedule repeats instead of falling back to one byte per read
 	EOFWith bool                     `json:"eof_with"`
 	Bufio   bool                     `json:"bufio"`
 	Stop    int                      `json:"stop"` // handlers: return false at the Stop-th document (0: never)
@@ -41,6 +42,8 @@ type schedReader struct {
 	si         int
 	eofWith    bool
 	bounds     map[int]bool // offsets at which a document ends
+	cycle      bool
+	empties    int
 	sawEmpty   bool
 	sawSpan    bool
 	sawEOFData bool
@@ -54,12 +57,16 @@ func (r *schedReader) Read(p []byte) (int, error) {
 		return 0, nil
 	}
 	act := 1
+	if r.cycle && r.si >= len(r.sched) {
+		r.si = 0
+	}
 	if r.si < len(r.sched) {
 		act = r.sched[r.si]
 		r.si++
 	}
 	if act == 0 {
 		r.sawEmpty = true
+		r.empties++
 		return 0, nil
 	}
 	n := act
@@ -150,6 +157,20 @@ func genC13(t *rapid.T) CaseC13 {
 	c.Sched = make([]int, n)
 	for i := range c.Sched {
 		c.Sched[i] = rapid.SampledFrom([]int{0, 1, 1, 1, 2, 3, 7, 64}).Draw(t, "act")
+	}
+	if rapid.IntRange(0, 3).Draw(t, "cycle") == 0 {
+		// a reader that keeps stuttering for the whole stream: never 100 empty reads in a row, many in total
+		c.Cycle = true
+		if rapid.Bool().Draw(t, "stutter") {
+			c.Sched = []int{0, rapid.SampledFrom([]int{1, 1, 2, 5}).Draw(t, "stn")}
+		}
+		pos := false
+		for _, a := range c.Sched {
+			pos = pos || a > 0
+		}
+		if !pos {
+			c.Sched = append(c.Sched, 1)
+		}
 	}
 	c.EOFWith = rapid.Bool().Draw(t, "eofWith")
 	c.Bufio = rapid.Bool().Draw(t, "bufio")
@@ -260,7 +281,7 @@ func checkC13(c CaseC13, info *Info) *Failure {
 	nd += prologs
 	stream.WriteString(c.Trail)
 	data := stream.Bytes()
-	sr := &schedReader{data: data, sched: c.Sched, eofWith: c.EOFWith, bounds: bounds}
+	sr := &schedReader{data: data, sched: c.Sched, eofWith: c.EOFWith, bounds: bounds, cycle: c.Cycle && hasPositive(c.Sched)}
 	var rdr io.Reader = sr
 	if c.Bufio {
 		rdr = bufio.NewReaderSize(sr, 16)
@@ -411,6 +432,7 @@ func checkC13(c CaseC13, info *Info) *Failure {
 	info.Class("kind:" + c.Kind)
 	info.Class("api:" + c.API)
 	info.ClassIf(sr.sawEmpty, "schedule delivered a (0,nil) read")
+	info.ClassIf(sr.empties >= 100*nd, "at least 100 (0,nil) reads per document, never 100 in a row")
 	info.ClassIf(sr.sawSpan, "a read spanned a document boundary")
 	info.ClassIf(sr.sawEOFData, "final data delivered together with io.EOF")
 	info.ClassIf(c.Stop > 0 && c.Stop < nd, "handler stopped early")
@@ -431,3 +453,12 @@ func strconvQuote(b []byte) string {
 }
 
 func TestC13(t *testing.T) { runProp(t, "C13", genC13, checkC13) }
+
+func hasPositive(s []int) bool {
+	for _, a := range s {
+		if a > 0 {
+			return true
+		}
+	}
+	return false
+}
